@@ -196,8 +196,8 @@ func (b *Broker) handle(c *Conn, n int, p *Pkt) (out []resp, closeAfter bool) {
 		}
 		if f := s.faultConn("connackRefuse", c.k); f != nil {
 			s.fire("connackRefuse")
-			code := f.Code
-			if code == 0 || code > 5 {
+			code := f.Code // incl. reserved values and MQTT 5 reason codes: anything but 0 refuses
+			if code == 0 {
 				code = 3
 			}
 			return []resp{{p: &Pkt{Type: TConnAck, Code: code}}}, true
